@@ -347,7 +347,8 @@ class FixedArray
                 boost::python::throw_error_already_set();
             }
             // e can be -1 if the iteration is backwards with a negative slice operator [::-n] (n > 0).
-            if (s < 0 || e < -1 || sl < 0) {
+            // An empty backward slice (sl == 0) can have s == -1, e.g. [::-1] on an empty array.
+            if (sl < 0 || (sl > 0 && (s < 0 || e < -1))) {
                 throw std::domain_error("Slice extraction produced invalid start, end, or length indices");
             }
             start = s;
